@@ -7,6 +7,10 @@ CHECKS = {
    text='Bounded symbolic verification: DualAverage::{new,advance,current_step_size*}, Adam::advance, AcceptanceRateCollector::register_leapfrog and RunningMean::current are executed symbolically from the MIR of the current tree; monotonicity (relational 1-step induction), the clamp/positivity bounds, the documented recurrences, the Adam sign rule and the [0,1] range of every acceptance statistic are discharged as SMT queries over all real-valued states. One inductive step covers histories of any length; rounding is outside the claim.',
    note='floats as exact reals; exp/ln/sqrt/pow uninterpreted with the listed axiom instances; rustc MIR printer, the mirsmt translator (validated on seeded inputs against closed formulas in doubles) and z3 are trusted',
    technique='SMT (z3) over symbolic execution of rustc MIR; relational one-step induction over the reals'),
+ 'C17': dict(level='model_checking', design='4/C17',
+   text='Bounded symbolic verification of the ten SIMD kernels of src/math/util.rs: the real WithSimd::with_simd bodies and all their closures are executed from the MIR for every length 0..=130 and lane counts 2, 4 and 8 with every element symbolic; element-wise kernels must produce, element by element, the documented scalar formula (equal over the reals and one of the listed IEEE expression shapes, so NaN/inf propagate identically) and leave every other element untouched; reductions must equal the exact sum of the scalar terms and feed exactly those product terms to the add/fma tree.',
+   note='pulp::Simd is modelled lane-wise (the x86 intrinsics behind V3/V4 are trusted); lengths above 130 and the faer-based low-rank products are outside; rustc MIR printer, mirsmt translator (validated on seeded concrete inputs), z3',
+   technique='SMT (z3) over symbolic execution of rustc MIR; one query per (kernel, lanes, length, policy) with all element values symbolic'),
 }
 NA = {
  'C04': 'statistical closed-loop claim (moments within Monte-Carlo error over >=1000 adapted draws); no bounded symbolic encoding exists for a solver to decide',
